@@ -10,7 +10,7 @@ from .. import astutil as A
 from ..fa import FA
 from ..loader import AnalysisError
 from .cache_model import (CacheModel, self_attr, assign_pairs, CACHE_CLASS, branch_filter, both, no_back_edges, every_path_through,
-                          at_most_once, bool_leaves, edge_implies, linear_terms, safe_expand, value_sources)
+                          at_most_once, bool_leaves, edge_implies, linear_terms, safe_expand, value_sources, slot_calls)
 
 
 def _block_of(fa: FA, st):
@@ -33,6 +33,27 @@ def _resolve_local(fa: FA, e, at_stmt):
     return e
 
 
+def _generated_fields(cls):
+    """field names, in order, of a class whose constructor is generated from its annotated class attributes (a dataclass or a
+    typing.NamedTuple); None for any other class"""
+    decos = [A.norm(d.func if isinstance(d, ast.Call) else d) for d in cls.node.decorator_list]
+    if not (any(d.split(".")[-1] == "dataclass" for d in decos) or any(b.split(".")[-1] == "NamedTuple" for b in cls.base_exprs)):
+        return None
+    return [st.target.id for st in cls.node.body if isinstance(st, ast.AnnAssign) and isinstance(st.target, ast.Name)
+            and "ClassVar" not in A.norm(st.annotation)]
+
+
+def _entry_size_index(fa: FA) -> int:
+    """position of the size among the constructor arguments of the cache entry class"""
+    try:
+        ecls = fa.ck.repo.cls("storage_base._CacheEntry")
+    except Exception:
+        return 0
+    ce = ecls.methods.get("__init__")
+    names = list(ce.params[1:]) if ce is not None else (_generated_fields(ecls) or [])
+    return names.index("obj_size") if "obj_size" in names else 0
+
+
 def size_forms(fa: FA, ins: ast.Assign):
     """The inserted entry and the ways its size may be written at this insertion site:
     the first argument of `_CacheEntry(...)` and `<entry local>.obj_size`.  Returns
@@ -40,7 +61,7 @@ def size_forms(fa: FA, ins: ast.Assign):
     entry = _resolve_local(fa, ins.value, ins)
     if not (isinstance(entry, ast.Call) and A.call_attr(entry) == "_CacheEntry"):
         return None, None, set()
-    size_expr = A.arg_or_kw(entry, 0, "obj_size")
+    size_expr = A.arg_or_kw(entry, _entry_size_index(fa), "obj_size")
     forms = set()
     if size_expr is not None:
         forms.add(A.norm(size_expr))
@@ -66,10 +87,21 @@ def _entry_size_read(fa: FA, cm, v, at_stmt, kx):
     """Is `v` (evaluated in `at_stmt`) the recorded size of the resident entry of key `kx` -- `<e>.obj_size`
     with <e> being `self.map[k]` / `self.map.get(k)` directly or through locals?  -> CFG nodes at which the
     entry is read out of the map (None when `v` is something else)."""
-    if not (isinstance(v, ast.Attribute) and v.attr == "obj_size"):
-        return None
     nodes = fa.nodes(at_stmt)
     if not nodes:
+        return None
+    hops = 0
+    while isinstance(v, ast.Name) and hops < 4:
+        # `size = self.map[k].obj_size` ... `counter -= size`
+        ds = []
+        for i in nodes:
+            ds += fa.df.reaching(i, v.id)
+        ds = list({d.node: d for d in ds}.values())
+        if len(ds) != 1 or ds[0].kind != "assign" or ds[0].value is None:
+            return None
+        v, nodes = ds[0].value, [ds[0].node]
+        hops += 1
+    if not (isinstance(v, ast.Attribute) and v.attr == "obj_size"):
         return None
     base = v.value
     read_nodes = list(nodes)
@@ -261,7 +293,7 @@ def check_accounting(ck, cm: CacheModel):
                               fa.where(st))
                     elif self_attr(t, cm.counter) and name != "__init__":
                         # plain assignment to the counter: only `= 0` together with map.clear()
-                        clears = [c for c in fa.calls("clear") if self_attr(A.call_recv(c), cm.map)]
+                        clears = slot_calls(fa, cm.map, ("clear",))
                         ok = isinstance(st.value, ast.Constant) and st.value.value == 0 and bool(clears)
                         ck.ob(R, fa.key(st, "counter-assign"), ok,
                               "counter reset together with map.clear()" if ok else
@@ -284,12 +316,12 @@ def check_accounting(ck, cm: CacheModel):
                       "counter adjustment sits beside a map mutation" if paired else
                       "counter adjusted without a map mutation in the same block", fa.where(st))
         # ---- clear
-        for c in fa.calls("clear"):
-            if self_attr(A.call_recv(c), cm.map):
+        for c in slot_calls(fa, cm.map, ("clear",)):
+            if True:
                 st = fa.stmt_of(c)
                 zero = [s for s in fa.stmts(ast.Assign) if any(self_attr(t, cm.counter) for t in s.targets)
                         and isinstance(s.value, ast.Constant) and s.value.value == 0]
-                qclear = [x for x in fa.calls("clear") if self_attr(A.call_recv(x), cm.queue)]
+                qclear = slot_calls(fa, cm.queue, ("clear",))
                 ck.ob(R, fa.key(st, "clear-counter"), bool(zero),
                       "map.clear() paired with counter = 0" if zero else "map.clear() without resetting the counter", fa.where(st))
                 ck.ob(R, fa.key(st, "clear-queue"), bool(qclear),
@@ -302,11 +334,27 @@ def check_accounting(ck, cm: CacheModel):
                 for t in ts:
                     if isinstance(t, ast.Attribute) and t.attr == "obj_size" and not (fi.cls and fi.cls.name == "_CacheEntry"):
                         ck.ob(R, "%s::%s" % (q, A.head(n)), False, "an entry's recorded size is modified after construction", A.loc(fi, n))
-    ce = ck.repo.cls("storage_base._CacheEntry").methods.get("__init__")
-    ck.need(ce is not None, "_CacheEntry.__init__ not found")
-    stores = [s for s in A.all_stmts(ce.node) if any(self_attr(t, "obj_size") and isinstance(v, ast.Name) and v.id == "obj_size" for (t, v) in assign_pairs(s))]
-    ck.ob(R, ce.qual + "::obj_size", bool(stores), "entry stores the size it was given" if stores else
-          "_CacheEntry does not store its obj_size parameter", A.loc(ce, ce.node))
+    ecls = ck.repo.cls("storage_base._CacheEntry")
+    ce = ecls.methods.get("__init__")
+    if ce is None:
+        # a generated constructor (dataclass / NamedTuple) stores every declared field from the parameter of the same name
+        gen = _generated_fields(ecls)
+        ck.need(gen is not None, "_CacheEntry has neither an __init__ nor a generated constructor (dataclass / NamedTuple)")
+        post = ecls.methods.get("__post_init__")
+        rew = post is not None and any(isinstance(t, ast.Attribute) and t.attr == "obj_size" for n in ast.walk(post.node)
+                                       for t in (n.targets if isinstance(n, ast.Assign) else [n.target] if isinstance(n, (ast.AugAssign, ast.AnnAssign)) else []))
+        ok = "obj_size" in gen and not rew
+        ck.ob(R, ecls.qual + ".__init__::obj_size", ok, "entry stores the size it was given" if ok else
+              "_CacheEntry does not store its obj_size parameter", A.loc(ecls, ecls.node))
+    else:
+        stores = []
+        for s_ in A.all_stmts(ce.node):
+            for (t, v) in assign_pairs(s_):
+                pairs = list(zip(t.elts, v.elts)) if isinstance(t, (ast.Tuple, ast.List)) and isinstance(v, (ast.Tuple, ast.List)) and len(t.elts) == len(v.elts) else [(t, v)]
+                if any(self_attr(t2, "obj_size") and isinstance(v2, ast.Name) and v2.id == "obj_size" for (t2, v2) in pairs):
+                    stores.append(s_)
+        ck.ob(R, ce.qual + "::obj_size", bool(stores), "entry stores the size it was given" if stores else
+              "_CacheEntry does not store its obj_size parameter", A.loc(ce, ce.node))
 
 
 class BudgetTests:
@@ -438,7 +486,8 @@ class BudgetTests:
         kinds = {(1, 1, -1): ("room", 1), (-1, -1, 1): ("room", -1), (0, 1, -1): ("oversize", 1), (0, -1, 1): ("oversize", -1),
                  (1, 0, -1): ("counter-only", 1), (-1, 0, 1): ("counter-only", -1)}
         if v not in kinds:
-            return None
+            # every operand is understood, but the comparison is not one of budget and accounts: it establishes nothing
+            return "other", {True: None, False: None}
         kind, k = kinds[v]
         if k < 0:
             op = {ast.Gt: ast.Lt, ast.Lt: ast.Gt, ast.GtE: ast.LtE, ast.LtE: ast.GtE}.get(op, op)
@@ -486,6 +535,32 @@ class BudgetTests:
                     False: "empty" if false_set == {0} else ("nonempty" if false_set and 0 not in false_set else None)}
         return None
 
+    def _flag_facts(self, leaf, nid, kind, _depth=0):
+        """A boolean local used as (part of) a test -- `fits = size <= budget` ... `if not fits:` -- says what the comparison
+        it was assigned says, provided what that comparison read is still current where the flag is tested.
+        -> function(value) -> bool, or None when the leaf is not such a flag."""
+        if not isinstance(leaf, ast.Name) or _depth > 3:
+            return None
+        v, dn = self._through_local(leaf, nid)
+        if dn is None or not isinstance(v, (ast.Compare, ast.BoolOp, ast.UnaryOp)):
+            return None
+        if kind == "room" and not self._fresh(dn, nid):
+            return None
+        inner = {}
+        v = self._inline_predicates(v)
+        for lf in bool_leaves(v):
+            bf = self.budget_fact(lf, dn)
+            ef = self.empty_fact(lf, dn) if kind == "room" else None
+            sub = self._flag_facts(lf, dn, kind, _depth + 1) if bf is None and ef is None else None
+            inner[id(lf)] = (bf, ef, sub)
+
+        def inner_fact(lf, value):
+            bf, ef, sub = inner[id(lf)]
+            return bool((bf is not None and bf[0] == kind and bf[1][value] == "fits") or (ef is not None and ef[value] == "empty")
+                        or (sub is not None and sub(value)))
+
+        return lambda value: edge_implies(v, value, inner_fact)
+
     # -- edges ------------------------------------------------------------------------------------------
     def establishing(self, kind):
         """Branch edges (test node id, 'T' | 'F') whose taking implies: kind 'oversize' -> size <= budget;
@@ -493,15 +568,20 @@ class BudgetTests:
         out = set()
         cm = self.cm
         watched = {"attr:self." + cm.counter, "attr:self." + cm.queue, "attr:self." + cm.budget}
+        if kind == "room":
+            out |= self._empty_queue_exception_edges()
+            out |= self._counted_loop_exhaustion_edges()
         for n in self.fa.cfg.nodes:
             if n.kind != "test" or n.ast is None:
                 continue
             facts = {}
-            for lf in bool_leaves(n.ast):
+            test = self._inline_predicates(n.ast)
+            for lf in bool_leaves(test):
                 bf = self.budget_fact(lf, n.id)
                 ef = self.empty_fact(lf, n.id) if kind == "room" else None
-                facts[id(lf)] = (bf, ef)
-                if bf is None and ef is None and kind == "room" and isinstance(self.fa.pm.get(n.ast), ast.While):
+                sub = self._flag_facts(lf, n.id, kind) if bf is None and ef is None else None
+                facts[id(lf)] = (bf, ef, sub)
+                if bf is None and ef is None and sub is None and kind == "room" and isinstance(self.fa.pm.get(n.ast), ast.While):
                     try:
                         d = self.fa.df.deps(lf, n.id)
                     except Exception:
@@ -510,16 +590,139 @@ class BudgetTests:
                         self.unclassified.append((lf, n.id))
 
             def fact_of(lf, value, facts=facts):
-                bf, ef = facts[id(lf)]
+                bf, ef, sub = facts[id(lf)]
                 if bf is not None and bf[0] == kind and bf[1][value] == "fits":
                     return True
                 if ef is not None and ef[value] == "empty":
                     return True
+                if sub is not None and sub(value):
+                    return True
                 return False
 
             for label in ("T", "F"):
-                if edge_implies(n.ast, label == "T", fact_of):
+                if edge_implies(test, label == "T", fact_of):
                     out.add((n.id, label))
+        return out
+
+    def _inline_predicates(self, test):
+        """`while self._needs_room(size):` -- a test that calls a method of the cache whose body is one `return <expression>`
+        says what that expression says with the arguments put in (it is evaluated right there, so what it reads is current).
+        -> the test itself, or a copy with such calls replaced by the helper's expression."""
+        import copy
+        cls = self.cm.cls
+
+        def helper_expr(c):
+            f = c.func
+            if not (isinstance(f, ast.Attribute) and isinstance(f.value, ast.Name) and f.value.id in ("self", cls.name) and f.attr in cls.methods):
+                return None
+            m = cls.methods[f.attr]
+            body = A.sig_stmts(m.node.body)
+            if len(body) != 1 or not isinstance(body[0], ast.Return) or body[0].value is None:
+                return None
+            params = list(m.params) if m.is_static else list(m.params[1:])
+            if any(isinstance(a, ast.Starred) for a in c.args) or any(k.arg is None for k in c.keywords) or len(c.args) > len(params):
+                return None
+            bind = dict(zip(params, c.args))
+            for k in c.keywords:
+                if k.arg not in params or k.arg in bind:
+                    return None
+                bind[k.arg] = k.value
+            if set(bind) != set(params):
+                return None
+            me = None if m.is_static else m.params[0]
+
+            class Sub(ast.NodeTransformer):
+                def visit_Name(self, n):
+                    if isinstance(n.ctx, ast.Load) and n.id in bind:
+                        return copy.deepcopy(bind[n.id])
+                    if me is not None and n.id == me and me != "self":
+                        return ast.copy_location(ast.Name(id="self", ctx=n.ctx), n)
+                    return n
+
+            return Sub().visit(copy.deepcopy(body[0].value))
+
+        if not any(isinstance(x, ast.Call) and helper_expr(x) is not None for x in ast.walk(test)):
+            return test
+
+        class Inl(ast.NodeTransformer):
+            def visit_Call(self, c):
+                self.generic_visit(c)
+                e = helper_expr(c)
+                return ast.copy_location(e, c) if e is not None else c
+
+        out = Inl().visit(copy.deepcopy(test))
+        ast.fix_missing_locations(out)
+        return out
+
+    def _counted_loop_exhaustion_edges(self):
+        """(node, 'F') for `for _ in range(len(self.queue)):` loops in which every completed iteration takes at least one key
+        out of the queue and nothing puts one in: when such a loop runs out, the queue is empty."""
+        out = set()
+        fa, cm = self.fa, self.cm
+        cfg = fa.cfg
+        for n in cfg.nodes:
+            if n.kind != "for" or n.ast is None:
+                continue
+            it = n.ast.iter
+            if not (isinstance(it, ast.Call) and isinstance(it.func, ast.Name) and it.func.id == "range" and len(it.args) == 1 and not it.keywords
+                    and self._is_queue_len(it.args[0], n.id)):
+                continue
+            starts = [d for (d, l) in cfg.succ[n.id] if l == "T"]
+            region = {i for i in cfg.reach(starts, removed=[n.id]) if n.id in cfg.reach([i])}  # the loop body: can come round again
+            takers, spoiled = set(), False
+            for i in region:
+                nd = cfg.node(i)
+                if nd.ast is None or nd.kind not in ("stmt", "test", "for", "with"):
+                    continue
+                root = nd.ast.iter if nd.kind == "for" else nd.ast
+                if nd.kind == "with":
+                    root = ast.Tuple(elts=[w.context_expr for w in nd.ast.items], ctx=ast.Load())
+                for x in A.walk_local(root):
+                    if not isinstance(x, ast.Call):
+                        continue
+                    if self_attr(A.call_recv(x), cm.queue):
+                        if A.call_attr(x) in ("popleft", "pop", "remove") and fa.unconditional(x):
+                            takers.add(i)
+                        elif A.call_attr(x) not in ("popleft", "pop", "remove", "count", "index", "copy", "__len__", "__contains__"):
+                            spoiled = True
+                    elif cm.is_self_call(x, cm.evict) and x.args and fa.unconditional(x):
+                        a0 = safe_expand(fa, x.args[0], x)
+                        if isinstance(a0, ast.Subscript) and self_attr(a0.value, cm.queue):
+                            takers.add(i)  # the evict role takes the evicted key out of the queue (C06.R1 del-queue)
+                    elif isinstance(x.func, ast.Attribute) and isinstance(x.func.value, ast.Name) and x.func.value.id == "self" \
+                            and not cm.is_self_call(x, cm.evict):
+                        spoiled = True  # another method of the cache may queue a key
+            if spoiled or not takers:
+                continue
+            # a completed iteration: from the body's start back to the loop head
+            if n.id not in cfg.reach(starts, removed=takers):
+                out.add((n.id, "F"))
+        return out
+
+    def _empty_queue_exception_edges(self):
+        """(node, 'exc') for statements whose only way to fail is taking the left / right end of the EMPTY recency queue
+        (`v = self.queue.popleft()`, `self.queue[0]`) inside a try that catches IndexError: leaving by that edge means the
+        queue is empty."""
+        out = set()
+        fa, cm = self.fa, self.cm
+        cfg = fa.cfg
+        for n in cfg.nodes:
+            if n.kind != "stmt" or n.ast is None or not isinstance(n.ast, (ast.Assign, ast.Expr, ast.AnnAssign)):
+                continue
+            v = n.ast.value
+            takes = (isinstance(v, ast.Call) and A.call_attr(v) in ("popleft", "pop") and not v.args and self_attr(A.call_recv(v), cm.queue)) or \
+                (isinstance(v, ast.Subscript) and self_attr(v.value, cm.queue) and isinstance(v.slice, ast.Constant) and v.slice.value in (0, -1))
+            if not takes:
+                continue
+            if isinstance(n.ast, ast.Assign) and not all(isinstance(t, ast.Name) for t in n.ast.targets):
+                continue
+            for (d, l) in cfg.succ[n.id]:
+                dn = cfg.node(d)
+                if l == "exc" and dn.kind == "except" and dn.ast is not None and dn.ast.type is not None:
+                    t = dn.ast.type
+                    names = [A.norm(x) for x in (t.elts if isinstance(t, ast.Tuple) else [t])]
+                    if all(x in ("IndexError", "LookupError") for x in names):
+                        out.add((n.id, "exc"))
         return out
 
 
@@ -570,9 +773,9 @@ def _check_budget_site(ck, cm, R, fa, ins):
           fa.where(ins))
     # the loops that make room: While statements that evict and lead to the insertion
     loops = []
-    for wst in fa.stmts(ast.While):
+    for wst in fa.stmts((ast.While, ast.For)):
         evs = [c for c in A.calls_in(wst) if cm.is_self_call(c, cm.evict)]
-        heads = fa.nodes(wst.test)
+        heads = fa.nodes(wst.test) if isinstance(wst, ast.While) else fa.cfg.nodes_of(wst)
         if evs and heads and any(set(ins_nodes) & cfg.reach([h]) for h in heads):
             loops.append((wst, evs, heads))
     for (wst, evs, heads) in loops:
@@ -591,6 +794,13 @@ def _check_budget_site(ck, cm, R, fa, ins):
                 continue
             a0 = safe_expand(fa, c.args[0], c)
             if isinstance(a0, ast.Call) and A.call_attr(a0) == "popleft" and self_attr(A.call_recv(a0), cm.queue):
+                left.append(c)
+            elif isinstance(a0, ast.Subscript) and self_attr(a0.value, cm.queue) and isinstance(a0.slice, ast.Constant) and a0.slice.value == 0 \
+                    and a0.slice.value is not False:
+                left.append(c)  # the evict role takes the key out of the queue itself (C06.R1 del-queue)
+            elif isinstance(a0, ast.Call) and isinstance(a0.func, ast.Name) and a0.func.id == "next" and len(a0.args) == 1 \
+                    and isinstance(a0.args[0], ast.Call) and isinstance(a0.args[0].func, ast.Name) and a0.args[0].func.id == "iter" \
+                    and len(a0.args[0].args) == 1 and self_attr(a0.args[0].args[0], cm.queue):
                 left.append(c)
         ck.ob("C06.R3", fa.key(wst, "evict-lru-end"), bool(left),
               "the loop evicts queue.popleft() (least recently used end)" if left else
@@ -637,37 +847,102 @@ def _loop_exits(fa, wst):
     """Branch edges (node, label) of tests inside the loop `wst` (its own test included)."""
     out = []
     for n in fa.cfg.nodes:
-        if n.kind == "test" and n.ast is not None and (n.ast is wst.test or fa.inside(n.ast, wst)):
+        if n.kind == "test" and n.ast is not None and (n.ast is getattr(wst, "test", None) or fa.inside(n.ast, wst)):
             out += [(n.id, "T"), (n.id, "F")]
     return out
+
+
+def _has_sub(e) -> bool:
+    return any((isinstance(x, ast.BinOp) and isinstance(x.op, ast.Sub)) or (isinstance(x, ast.UnaryOp) and isinstance(x.op, ast.USub)) for x in ast.walk(e))
+
+
+def _bounds_below(text, pol, xs) -> bool:
+    """does the branch literal (text, polarity) say `X >= M` / `X > M` for a subtraction-free M, X being one of the texts `xs`?"""
+    try:
+        e = ast.parse(text, mode="eval").body
+    except SyntaxError:
+        return False
+    if not (isinstance(e, ast.Compare) and len(e.ops) == 1):
+        return False
+    op = type(e.ops[0])
+    l, r = e.left, e.comparators[0]
+    mirror = {ast.Gt: ast.Lt, ast.Lt: ast.Gt, ast.GtE: ast.LtE, ast.LtE: ast.GtE}
+    negate = {ast.Gt: ast.LtE, ast.LtE: ast.Gt, ast.Lt: ast.GtE, ast.GtE: ast.Lt}
+    if op not in mirror:
+        return False
+    if A.norm(l) in xs:
+        other = r
+    elif A.norm(r) in xs:
+        other, op = l, mirror[op]
+    else:
+        return False
+    if not pol:
+        op = negate[op]
+    return op in (ast.Gt, ast.GtE) and not _has_sub(other)
 
 
 def check_estimates_bounded_below(ck, cm, R):
     """The accounts are only honest if a recorded size cannot be negative: an estimator that
     extrapolates (a difference of two measurements scaled up) must bound its result below by something
-    that was measured.  Every return of a size estimator of the cache whose value involves a subtraction
-    is a `max(<extrapolation>, <measured size>)`."""
+    that was measured.  Every value a size estimator of the cache returns that involves a subtraction is
+    either `max(<extrapolation>, <measured size>)` or is returned only on paths that have compared it with a
+    measured size and found it at least as large (`x if x > m else m`, `if x < m: return m` ... `return x`)."""
     n = 0
     for name, m in cm.cls.methods.items():
         if "mem_usage" not in name and "estimate" not in name and "size" not in name:
             continue
         fa = FA(ck, m)
         for r in fa.returns():
-            if r.value is None:
+            if r.value is None or not fa.nodes(r):
                 continue
-            e = safe_expand(fa, r.value, r)
-            subs = [x for x in ast.walk(e) if isinstance(x, ast.BinOp) and isinstance(x.op, ast.Sub)] + \
-                   [x for x in ast.walk(e) if isinstance(x, ast.UnaryOp) and isinstance(x.op, ast.USub)]
-            if not subs:
+            bad = None
+            seen = False
+            conds = None
+            for (v_, at_) in value_sources(fa, r):
+                # a conditional expression hands out one of two values, each under its own condition
+                alts = [(v_, [[]])]
+                k = 0
+                while k < len(alts) and len(alts) < 16:
+                    (x, cs) = alts[k]
+                    if isinstance(x, ast.IfExp):
+                        try:
+                            t_alts, f_alts = fa._alts(x.test, at_, True), fa._alts(x.test, at_, False)
+                        except AnalysisError:
+                            t_alts, f_alts = [[]], [[]]
+                        alts[k:k + 1] = [(x.body, [c + t for c in cs for t in t_alts]), (x.orelse, [c + f for c in cs for f in f_alts])]
+                    else:
+                        k += 1
+                for (x, cs) in alts:
+                    try:
+                        e = fa.expand(x, at_)
+                    except AnalysisError:
+                        e = x
+                    if not _has_sub(e):
+                        continue
+                    seen = True
+                    if isinstance(e, ast.Call) and isinstance(e.func, ast.Name) and e.func.id == "max" and len(e.args) >= 2 \
+                            and any(not _has_sub(a) for a in e.args):
+                        continue
+                    xs = {A.norm(e), A.norm(x)}
+                    try:
+                        xs.add(fa.xnorm(x, at_))
+                    except AnalysisError:
+                        pass
+                    if conds is None:
+                        conds = fa.conditions(r) or set()
+                    # every way of handing this value out has found it at least as large as a measured one
+                    ways = [list(pc) + c for pc in (conds or [frozenset()]) for c in cs]
+                    if ways and all(any(_bounds_below(t_, p_, xs) for (t_, p_) in w) for w in ways):
+                        continue
+                    bad = bad or x
+            if not seen:
                 continue
             n += 1
-            top = e
-            ok = isinstance(top, ast.Call) and isinstance(top.func, ast.Name) and top.func.id == "max" and len(top.args) >= 2 and \
-                any(not any(isinstance(y, ast.BinOp) and isinstance(y.op, ast.Sub) for y in ast.walk(a)) for a in top.args)
+            ok = bad is None
             ck.ob(R, fa.key(r, "estimate-bounded-below"), ok,
                   "the extrapolated size is bounded below by a measured one" if ok else
                   "`%s` extrapolates from a difference of two sample measurements and can come out negative (heavy rows in the small sample): the entry "
-                  "is then resident with a negative size, memory_usage goes down on insertion and the budget is exceeded" % A.short(r.value, 60), fa.where(r))
+                  "is then resident with a negative size, memory_usage goes down on insertion and the budget is exceeded" % A.short(bad, 60), fa.where(r))
     ck.ob(R, CACHE_CLASS + "::estimate-bounded-below::scan", True, "%d extrapolating size estimates" % n, "")
 
 
@@ -676,7 +951,10 @@ def check_queue_unbounded(ck, cm, R):
     for st in ini.stmts((ast.Assign, ast.AnnAssign)):
         qv = [v for (t, v) in assign_pairs(st) if self_attr(t, cm.queue) and isinstance(v, ast.Call)]
         if qv:
-            ok = not qv[0].args and not qv[0].keywords
+            # only a bound makes the queue drop keys: deque(), deque([]), deque(maxlen=None) are all unbounded
+            bound = A.arg_or_kw(qv[0], 1, "maxlen")
+            ok = (bound is None or A.is_none(bound)) and not any(k.arg is None for k in qv[0].keywords) \
+                and not any(isinstance(a, ast.Starred) for a in qv[0].args)
             ck.ob(R, ini.key(None, "queue-unbounded"), ok, "the recency queue never drops keys on its own" if ok else
                   "the recency queue is constructed as `%s`: once full it silently drops the oldest key while its entry stays resident, so that entry "
                   "can never be evicted and the budget is exceeded" % A.norm(qv[0]), ini.where(st))
@@ -943,8 +1221,8 @@ def check_replace_on_put(ck, cm: CacheModel, rule="C06.R4"):
     fa = FA(ck, cm.insert)
     ins = [s for s in fa.stmts(ast.Assign) if any(isinstance(t, ast.Subscript) and self_attr(t.value, cm.map) for t in s.targets)]
     ins = fa.one(ins, "insertion into the resident map")
-    k = A.norm([t for t in ins.targets if isinstance(t, ast.Subscript)][0].slice)
-    ev = [c for c in fa.calls(cm.evict.name) if cm.is_self_call(c, cm.evict) and c.args and A.norm(c.args[0]) == k]
+    k = _xn(fa, [t for t in ins.targets if isinstance(t, ast.Subscript)][0].slice, ins)
+    ev = [c for c in fa.calls(cm.evict.name) if cm.is_self_call(c, cm.evict) and c.args and _xn(fa, c.args[0], c) == k]
     removed = set(fa.nodes(ins)) | set(fa.nodes_all(ev))
     p = fa.cfg.path(fa.cfg.entry, fa.cfg.exit, removed)
     ck.paths_enumerated += 1
@@ -959,6 +1237,31 @@ def check_replace_on_put(ck, cm: CacheModel, rule="C06.R4"):
               "(path %s): a later read is served the stale value" % fa.cfg.describe_path(p), fa.where(at))
 
 
+def _evicts_every_resident_key(fa: FA, cm) -> bool:
+    """forget_everything written as a loop: on every path it runs a loop that hands every key of the resident map (or of
+    the recency queue, a superset) to the evict role, with no condition deciding which keys are evicted."""
+    evs = [c for c in fa.calls() if cm.is_self_call(c, cm.evict) and c.args]
+    if not evs:
+        return False
+    sc = ForgetScope(fa, cm)
+    loops = []
+    for c in evs:
+        loop = fa.enclosing(c, (ast.For,))
+        if loop is None or _comprehension_env(fa, c.args[0]):
+            return False
+        loops.append(loop)
+        for i in fa.nodes(c):
+            sc.trace(c.args[0], i, {})
+            # conditions inside the loop (those outside it are covered by the must-pass query below)
+            for conj in (fa.conditions(i) or []):
+                for (t_, p_) in conj:
+                    sc.filters.append((t_, i, set()))
+    if sc.other or sc.filters or not (set(sc.fields) & {cm.map, cm.queue}) or set(sc.fields) - {cm.map, cm.queue}:
+        return False
+    heads = fa.nodes_all(loops)
+    return bool(heads) and fa.cfg.must_pass(heads, fa.cfg.exit)
+
+
 def check_forget(ck, cm: CacheModel, rule="C06.R5"):
     ck.rule(rule, "forget operations of the cache evict through the evict role (so accounts are updated) and drop weak refs", 3)
     for name in ("forget_call", "forget_function", "forget_everything"):
@@ -966,10 +1269,18 @@ def check_forget(ck, cm: CacheModel, rule="C06.R5"):
         ck.need(m is not None, "MemoryCache.%s not found" % name)
         fa = FA(ck, m)
         if name == "forget_everything":
-            ok = bool([c for c in fa.calls("clear") if self_attr(A.call_recv(c), cm.map)]) and \
-                fa.cfg.must_pass(fa.nodes_all([c for c in fa.calls("clear") if self_attr(A.call_recv(c), cm.map)]), fa.cfg.exit)
+            clears = slot_calls(fa, cm.map, ("clear",))
+            ev = fa.nodes_all(clears)
+            for c in clears:
+                # a loop over a literal, non-empty tuple of slots runs its body at least once
+                loop = fa.enclosing(c, (ast.For,))
+                if loop is not None and isinstance(loop.iter, (ast.Tuple, ast.List)) and loop.iter.elts and fa.stmt_of(c) in loop.body:
+                    ev += fa.nodes(loop)
+            ok = bool(clears) and fa.cfg.must_pass(ev, fa.cfg.exit)
+            if not clears:
+                ok = _evicts_every_resident_key(fa, cm)
             if cm.refs:
-                ok = ok and bool([c for c in fa.calls("clear") if self_attr(A.call_recv(c), cm.refs)])
+                ok = ok and bool(slot_calls(fa, cm.refs, ("clear",)))
             ck.ob(rule, fa.key(None, "clears"), ok, "forget_everything clears map and weak refs on every path" if ok else
                   "forget_everything does not clear the resident map / weak refs on every path", fa.where())
         else:
@@ -988,6 +1299,597 @@ def check_forget(ck, cm: CacheModel, rule="C06.R5"):
                       "%s leaves the weak reference: a forgotten result can still be served" % name, fa.where())
 
 
+# ---- C06.R5 (scope): forget_function empties the function's share of the resident map ------------------------
+#
+# "The usage counter returns to zero once everything has been forgotten, by whatever sequence of forget
+# operations" needs forget_function to evict EVERY resident entry of the function.  Two clauses decide that
+# from the code alone:
+#   (1) the keys it evicts are enumerated from the resident map itself (or from the recency queue, which C06.R1
+#       keeps a superset of it), and which of them are evicted depends on the key and the function reference only,
+#       not on other cache state (weak table, entry contents, an index);
+#   (2) if they are enumerated from another table of the cache (a per-function index), that table lists every
+#       resident key: each insertion into the resident map records its key in the table as the table holds it at
+#       that moment (not in a bucket looked up before a call that can drop the bucket), and nothing leaves the
+#       table while its entry stays resident.
+
+_WRAP_FUNCS = {"list", "set", "tuple", "sorted", "frozenset", "iter", "reversed", "deque"}
+_ELEMENT_GETTERS = {"get", "setdefault", "__getitem__"}
+_REMOVERS = {"pop", "popitem", "clear", "remove", "discard", "__delitem__"}
+_ADDERS = {"add", "append", "appendleft", "setdefault", "__setitem__"}
+
+
+class Rooted:
+    """An expression that designates a table of the cache or something held inside it: `self.T` (depth 0),
+    `self.T[q]` / `self.T.get(q)` / `self.T.setdefault(q, ...)` (depth 1), ... directly or through locals."""
+
+    def __init__(self, field, depth, keys, hops, orphan):
+        self.field = field      # attribute of self
+        self.depth = depth      # number of element look-ups below the table
+        self.keys = keys        # [(key expression, CFG node where it is evaluated)] per look-up
+        self.hops = hops        # [(CFG node where a local alias was bound, depth of what it names)]
+        self.orphan = orphan    # a look-up may have produced a fresh default object that the table does not hold
+
+
+def rooted(fa: FA, e, at, _n=0):
+    if e is None or _n > 8:
+        return None
+    f = self_attr(e)
+    if f:
+        return Rooted(f, 0, [], [], False)
+    if isinstance(e, ast.Name):
+        ds = fa.df.reaching(at, e.id)
+        if len(ds) == 1 and ds[0].kind == "assign" and ds[0].value is not None and ds[0].node >= 0:
+            r = rooted(fa, ds[0].value, ds[0].node, _n + 1)
+            if r is not None:
+                return Rooted(r.field, r.depth, r.keys, r.hops + [(ds[0].node, r.depth)], r.orphan)
+        if len(ds) == 1 and ds[0].kind == "for" and ds[0].value is not None:
+            # `for bucket in self.T.values():`
+            it = ds[0].value
+            if isinstance(it, ast.Call) and A.call_attr(it) == "values" and not it.args:
+                r = rooted(fa, A.call_recv(it), ds[0].node, _n + 1)
+                if r is not None:
+                    return Rooted(r.field, r.depth + 1, r.keys + [(None, ds[0].node)], r.hops + [(ds[0].node, r.depth + 1)], r.orphan)
+        return None
+    if isinstance(e, ast.Subscript):
+        r = rooted(fa, e.value, at, _n + 1)
+        if r is not None:
+            return Rooted(r.field, r.depth + 1, r.keys + [(e.slice, at)], r.hops, r.orphan)
+        return None
+    if isinstance(e, ast.Call) and A.call_attr(e) in _ELEMENT_GETTERS and e.args and isinstance(e.func, ast.Attribute):
+        r = rooted(fa, e.func.value, at, _n + 1)
+        if r is not None:
+            fresh_default = A.call_attr(e) == "get" and len(e.args) > 1 and not A.is_none(e.args[1])
+            return Rooted(r.field, r.depth + 1, r.keys + [(e.args[0], at)], r.hops, r.orphan or fresh_default)
+    return None
+
+
+def _xkey(fa: FA, e, at) -> str:
+    try:
+        return fa.xnorm(e, at)
+    except AnalysisError:
+        return A.norm(e)
+
+
+class TableUse:
+    """Additions to and removals from one table of the cache inside one method, by CFG node."""
+
+    def __init__(self, fa: FA, table: str):
+        self.fa, self.table = fa, table
+        self.adds = []      # (Rooted receiver, key expr, CFG node, ast)
+        self.removals = []  # (depth at which something is removed, key expr or None, CFG node, ast, kind)
+        cfg = fa.cfg
+        for n in cfg.nodes:
+            if n.ast is None or n.kind not in ("stmt", "test", "for", "with") or n.id not in cfg.reachable_nodes():
+                continue
+            root = n.ast.iter if n.kind == "for" else n.ast
+            if n.kind == "with":
+                root = ast.Tuple(elts=[i.context_expr for i in n.ast.items], ctx=ast.Load())
+            for x in A.walk_local(root):
+                if isinstance(x, ast.Call) and isinstance(x.func, ast.Attribute):
+                    r = rooted(fa, x.func.value, n.id)
+                    if r is None or r.field != table:
+                        continue
+                    nm = x.func.attr
+                    if nm in _REMOVERS:
+                        whole = nm in ("clear", "popitem")
+                        self.removals.append((r.depth - 1 if whole else r.depth, None if whole else (x.args[0] if x.args else None), n.id, x,
+                                              "clear" if whole else "key", r))
+                    elif nm in _ADDERS and x.args:
+                        self.adds.append((r, x.args[0], n.id, x))
+                elif isinstance(x, ast.Subscript) and isinstance(x.ctx, (ast.Store, ast.Del)):
+                    r = rooted(fa, x.value, n.id)
+                    if r is None or r.field != table:
+                        continue
+                    if isinstance(x.ctx, ast.Del):
+                        self.removals.append((r.depth, x.slice, n.id, x, "key", r))
+                    else:
+                        self.adds.append((r, x.slice, n.id, x))
+                elif isinstance(x, ast.Attribute) and isinstance(x.ctx, (ast.Store, ast.Del)) and self_attr(x) == table:
+                    self.removals.append((-1, None, n.id, x, "rebind", None))
+
+    def min_removal_depth(self):
+        return min([d for (d, *_r) in self.removals], default=None)
+
+
+class IndexMirror:
+    """Is table `T` of the cache a complete list of the resident keys?  (clause (2) above)"""
+
+    def __init__(self, ck, cm: CacheModel, table: str):
+        self.ck, self.cm, self.table = ck, cm, table
+        self.uses = {}
+        for name, m in cm.cls.methods.items():
+            if name == "__init__" or m.is_static:
+                continue
+            fa = FA(ck, m)
+            self.uses[name] = TableUse(fa, table)
+        # transitive: the shallowest level at which a call of the method can take something out of the table
+        self.drop_depth = {name: u.min_removal_depth() for name, u in self.uses.items()}
+        changed = True
+        while changed:
+            changed = False
+            for name, u in self.uses.items():
+                for c in u.fa.calls():
+                    callee = self._self_callee(c)
+                    if callee is None or self.drop_depth.get(callee) is None:
+                        continue
+                    d = self.drop_depth[callee]
+                    if self.drop_depth[name] is None or d < self.drop_depth[name]:
+                        self.drop_depth[name] = d
+                        changed = True
+
+    def _self_callee(self, c):
+        if isinstance(c.func, ast.Attribute) and isinstance(c.func.value, ast.Name) and c.func.value.id == "self" and c.func.attr in self.uses:
+            return c.func.attr
+        return None
+
+    def detaching_nodes(self, name, below_depth):
+        """CFG nodes of method `name` that can take out of the table something at a level above `below_depth`
+        (so that an alias of an element at `below_depth` may no longer be what the table holds)."""
+        u = self.uses[name]
+        out = {nid for (d, _k, nid, _x, _kind, _r) in u.removals if d < below_depth}
+        for c in u.fa.calls():
+            callee = self._self_callee(c)
+            if callee is not None and self.drop_depth.get(callee) is not None and self.drop_depth[callee] < below_depth:
+                out |= set(u.fa.nodes(c))
+        return out
+
+    def stale_by(self, name, r: Rooted, use_node):
+        """the CFG node (or None) that can detach what `r` names between the look-up and its use at `use_node`"""
+        cfg = self.uses[name].fa.cfg
+        for (dn, depth) in r.hops:
+            if depth < 1:
+                continue
+            after_def = cfg.reach([dn], removed=[dn], include_start=False)
+            for w in sorted(self.detaching_nodes(name, depth) & after_def):
+                if w == use_node:
+                    continue
+                if use_node in cfg.reach([w], removed=[dn], include_start=False):
+                    return w
+        return None
+
+    def check(self, rule, scope_roots=()):
+        ck, cm, T = self.ck, self.cm, self.table
+        add_depths = set()
+        n_ins = 0
+        # (M) every insertion into the resident map is recorded in the table, in what the table holds at that moment
+        for m in cm.inserts:
+            u = self.uses[m.name]
+            fa = u.fa
+            for st in fa.stmts(ast.Assign):
+                for t in st.targets:
+                    if not (isinstance(t, ast.Subscript) and self_attr(t.value, cm.map)):
+                        continue
+                    ins_nodes = fa.nodes(st)
+                    if not ins_nodes:
+                        continue
+                    n_ins += 1
+                    kx = _xkey(fa, t.slice, ins_nodes[0])
+                    same = [(r, k, nid, x) for (r, k, nid, x) in u.adds if _xkey(fa, k, nid) == kx]
+                    live, stale, orphan = [], [], []
+                    for (r, k, nid, x) in same:
+                        add_depths.add(r.depth)
+                        w = self.stale_by(m.name, r, nid)
+                        if w is not None:
+                            stale.append((x, w))
+                        elif r.orphan:
+                            orphan.append(x)
+                        else:
+                            live.append(nid)
+                    ok = bool(live) and every_path_through(fa, ins_nodes, live)
+                    if ok:
+                        why = "the inserted key is recorded in self.%s" % T
+                        at = st
+                    elif stale and every_path_through(fa, ins_nodes, live + fa.nodes_all([x for (x, _w) in stale])):
+                        x, w = stale[0]
+                        at = x
+                        why = ("`%s` records the inserted key in a part of self.%s that was looked up before `%s`, which can drop that part from the "
+                               "table: the key then lands in an object the table no longer holds, forget_function (which takes its keys from self.%s) "
+                               "misses the resident entry -- it stays served and %s never returns to zero"
+                               % (A.short(fa.stmt_of(x) or x, 50), T, A.short(fa.cfg.node(w).ast, 40), T, cm.counter))
+                    elif orphan:
+                        at = orphan[0]
+                        why = ("`%s` records the inserted key in a default object that self.%s does not hold when the function has no entry yet: "
+                               "forget_function (which takes its keys from self.%s) misses the resident entry" % (A.short(fa.stmt_of(at) or at, 50), T, T))
+                    else:
+                        at = st
+                        why = ("`%s` makes an entry resident without recording its key in self.%s on every path: forget_function takes its keys from "
+                               "that table only, so the entry survives forgetting its function and %s never returns to zero" % (A.short(st, 50), T, cm.counter))
+                    ck.ob(rule, fa.key(None, "index-records-insertion:" + T + ("#%d" % n_ins if n_ins > 1 else "")), ok, why, fa.where(at))
+        # (R) nothing leaves the table while its entry stays resident
+        leaf = max(add_depths) if add_depths else 0
+        for name, u in sorted(self.uses.items()):
+            fa = u.fa
+            map_clear = fa.nodes_all([c for c in fa.calls("clear") if self_attr(A.call_recv(c), cm.map)])
+            for (d, k, nid, x, kind, r) in u.removals:
+                st = fa.stmt_of(x) or x
+                if x in scope_roots or any(x is y for root in scope_roots for y in ast.walk(root)):
+                    continue  # what is taken out here is what forget_function goes on to evict
+                if kind == "key" and d == leaf and k is not None:
+                    kx = _xkey(fa, k, nid)
+                    gone = []
+                    for s2 in fa.stmts(ast.Delete):
+                        for t in s2.targets:
+                            if isinstance(t, ast.Subscript) and self_attr(t.value, cm.map) and any(_xkey(fa, t.slice, i) == kx for i in fa.nodes(s2)):
+                                gone += fa.nodes(s2)
+                    for c in fa.calls():
+                        if ((A.call_attr(c) == "pop" and self_attr(A.call_recv(c), cm.map)) or cm.is_self_call(c, cm.evict)) and c.args \
+                                and any(_xkey(fa, c.args[0], i) == kx for i in fa.nodes(c)):
+                            gone += fa.nodes(c)
+                    ok = bool(gone) and every_path_through(fa, [nid], gone)
+                    ck.ob(rule, fa.key(st, "index-removal-with-eviction:" + T), ok,
+                          "a key leaves self.%s only together with its resident entry" % T if ok else
+                          "`%s` takes a key out of self.%s on a path that does not remove its entry from the resident map: forget_function (which takes "
+                          "its keys from self.%s) then misses a resident entry" % (A.short(st, 50), T, T), fa.where(st))
+                elif d < leaf or kind in ("clear", "rebind"):
+                    if d < 0:
+                        ok = bool(map_clear) and every_path_through(fa, [nid], map_clear)
+                        why = "self.%s is emptied together with the resident map" % T
+                    else:
+                        ok = self._only_when_empty(fa, st, nid, d, k)
+                        why = "a part of self.%s is dropped only once it lists no key" % T
+                    ck.ob(rule, fa.key(st, "index-part-dropped-when-empty:" + T), ok, why if ok else
+                          "`%s` drops a whole part of self.%s that may still list resident keys: forget_function (which takes its keys from self.%s) "
+                          "then misses them" % (A.short(st, 50), T, T), fa.where(st))
+        return n_ins
+
+    def _only_when_empty(self, fa: FA, st, nid, depth, key) -> bool:
+        """every way to the removal has taken a branch edge saying that the part removed (an element of the table at
+        `depth` + 1, under the same key) is empty"""
+        conds = fa.conditions(nid)
+        if not conds:
+            return False
+        kx = _xkey(fa, key, nid) if key is not None else None
+
+        def part(e):
+            # literal texts are fully expanded: only self-rooted chains are left
+            try:
+                r = rooted(fa, e, nid)
+            except Exception:
+                r = None
+            if r is None or r.field != self.table or r.depth != depth + 1:
+                return False
+            if kx is None or not r.keys or r.keys[-1][0] is None:
+                return True
+            return A.norm(r.keys[-1][0]) == kx
+
+        def says_empty(text, pol):
+            try:
+                e = ast.parse(text, mode="eval").body
+            except SyntaxError:
+                return False
+            if part(e):
+                return not pol
+            if isinstance(e, ast.Call) and isinstance(e.func, ast.Name) and e.func.id in ("len", "bool") and len(e.args) == 1 and part(e.args[0]):
+                return not pol
+            if isinstance(e, ast.Compare) and len(e.ops) == 1:
+                l, r_ = e.left, e.comparators[0]
+                is_len = lambda v: isinstance(v, ast.Call) and isinstance(v.func, ast.Name) and v.func.id == "len" and len(v.args) == 1 and part(v.args[0])
+                cnum = lambda v: v.value if isinstance(v, ast.Constant) and isinstance(v.value, int) and not isinstance(v.value, bool) else None
+                opf = {ast.Gt: lambda a, b: a > b, ast.Lt: lambda a, b: a < b, ast.GtE: lambda a, b: a >= b, ast.LtE: lambda a, b: a <= b,
+                       ast.Eq: lambda a, b: a == b, ast.NotEq: lambda a, b: a != b}.get(type(e.ops[0]))
+                if opf is None:
+                    return False
+                if is_len(l) and cnum(r_) is not None:
+                    f = lambda n: opf(n, cnum(r_))
+                elif is_len(r_) and cnum(l) is not None:
+                    f = lambda n: opf(cnum(l), n)
+                else:
+                    return False
+                sat = {n for n in range(0, 6) if f(n) == pol}
+                return sat == {0}
+            return False
+
+        return all(any(says_empty(t_, p_) for (t_, p_) in conj) for conj in conds)
+
+
+class ForgetScope:
+    """Where the keys that a forget operation evicts come from, and what decides which of them are evicted."""
+
+    def __init__(self, fa: FA, cm: CacheModel):
+        self.fa, self.cm = fa, cm
+        self.fields = {}     # self attribute enumerated -> an expression that reads it
+        self.root_exprs = []  # the look-up expressions inside tables that are enumerated
+        self.filters = []    # (condition expression, CFG node, names bound by a comprehension)
+        self.other = []      # sources that are not cache state (parameters, unknown forms)
+        self._seen = set()
+
+    def trace(self, e, at, env=None, _n=0):
+        fa = self.fa
+        env = env or {}
+        if e is None or _n > 14:
+            self.other.append(e)
+            return
+        if isinstance(e, ast.Name):
+            if e.id in env:
+                return self.trace(env[e.id], at, {k: v for k, v in env.items() if k != e.id}, _n + 1)
+            ds = fa.df.reaching(at, e.id)
+            if not ds:
+                self.other.append(e)
+                return
+            for d in ds:
+                if (d.node, d.name) in self._seen:
+                    continue
+                self._seen.add((d.node, d.name))
+                if d.kind in ("assign", "for", "aug") and d.value is not None and d.node >= 0:
+                    if d.kind == "for" and isinstance(getattr(d.stmt, "target", None), (ast.Tuple, ast.List)):
+                        tg = d.stmt.target
+                        if not (tg.elts and isinstance(tg.elts[0], ast.Name) and tg.elts[0].id == e.id):
+                            self.other.append(e)
+                            continue
+                    self.trace(d.value, d.node, None, _n + 1)
+                else:
+                    self.other.append(e)
+            # a collection filled element by element: `acc.append(k)` / `acc.add(k)` / `acc.extend(ks)`
+            for c in fa.calls():
+                if A.call_attr(c) in ("append", "add", "extend", "update", "appendleft") and isinstance(A.call_recv(c), ast.Name) and A.call_recv(c).id == e.id and c.args:
+                    for i in fa.nodes(c):
+                        if (i, "fill:" + e.id) in self._seen:
+                            continue
+                        self._seen.add((i, "fill:" + e.id))
+                        self.trace(c.args[0], i, None, _n + 1)
+                        self.path_filters(i)
+            return
+        f = self_attr(e)
+        if f:
+            self.fields.setdefault(f, e)
+            return
+        if isinstance(e, ast.Call):
+            nm = A.call_attr(e)
+            if isinstance(e.func, ast.Name) and nm in _WRAP_FUNCS and e.args:
+                return self.trace(e.args[0], at, env, _n + 1)
+            if isinstance(e.func, ast.Name) and nm == "filter" and len(e.args) == 2:
+                self.filters.append((e.args[0], at, set(env)))
+                return self.trace(e.args[1], at, env, _n + 1)
+            if nm == "next" and isinstance(e.func, ast.Name) and e.args:
+                return self.trace(e.args[0], at, env, _n + 1)
+            if nm in ("chain", "union") and (e.args or isinstance(e.func, ast.Attribute)):
+                if isinstance(e.func, ast.Attribute) and nm == "union":
+                    self.trace(e.func.value, at, env, _n + 1)
+                for a in e.args:
+                    self.trace(a.value if isinstance(a, ast.Starred) else a, at, env, _n + 1)
+                return
+            if isinstance(e.func, ast.Attribute):
+                if nm in ("keys", "copy", "items", "values") and not e.args:
+                    return self.trace(e.func.value, at, env, _n + 1)
+                if nm in ("intersection", "difference"):
+                    for a in e.args:
+                        self.filters.append((a, at, set(env)))
+                    return self.trace(e.func.value, at, env, _n + 1)
+                if nm in ("get", "pop", "setdefault", "__getitem__") and e.args:
+                    r = rooted(fa, e.func.value, at)
+                    if r is not None:
+                        self.fields.setdefault(r.field, e)
+                        self.root_exprs.append(e)
+                        return
+            self.other.append(e)
+            return
+        if isinstance(e, ast.Subscript):
+            r = rooted(fa, e.value, at)
+            if r is not None:
+                self.fields.setdefault(r.field, e)
+                self.root_exprs.append(e)
+                return
+            self.other.append(e)
+            return
+        if isinstance(e, (ast.ListComp, ast.SetComp, ast.GeneratorExp)):
+            nb = dict(env)
+            for g in e.generators:
+                tg = g.target
+                if isinstance(tg, ast.Name):
+                    nb[tg.id] = g.iter
+                elif isinstance(tg, (ast.Tuple, ast.List)) and tg.elts and isinstance(tg.elts[0], ast.Name):
+                    nb[tg.elts[0].id] = g.iter
+                for c in g.ifs:
+                    self.filters.append((c, at, {n_.id for g2 in e.generators for n_ in ast.walk(g2.target) if isinstance(n_, ast.Name)}))
+            if isinstance(e.elt, ast.Name) and e.elt.id in nb:
+                return self.trace(e.elt, at, nb, _n + 1)
+            self.other.append(e)
+            return
+        if isinstance(e, ast.BinOp) and isinstance(e.op, (ast.BitOr, ast.Add)):
+            self.trace(e.left, at, env, _n + 1)
+            self.trace(e.right, at, env, _n + 1)
+            return
+        if isinstance(e, ast.BinOp) and isinstance(e.op, (ast.BitAnd, ast.Sub)):
+            self.filters.append((e.right, at, set(env)))
+            return self.trace(e.left, at, env, _n + 1)
+        if isinstance(e, ast.IfExp):
+            self.filters.append((e.test, at, set(env)))
+            self.trace(e.body, at, env, _n + 1)
+            self.trace(e.orelse, at, env, _n + 1)
+            return
+        if isinstance(e, (ast.List, ast.Tuple, ast.Set)):
+            for x in e.elts:
+                if isinstance(x, ast.Starred):
+                    self.trace(x.value, at, env, _n + 1)
+                elif not isinstance(x, ast.Constant):
+                    self.other.append(x)
+            return
+        if isinstance(e, ast.Starred):
+            return self.trace(e.value, at, env, _n + 1)
+        self.other.append(e)
+
+    def path_filters(self, nid, key=None):
+        """the branch literals under which CFG node `nid` is reached (a test whether the key itself was found -- `k is None`,
+        `not k` -- says nothing about cache state beyond what the enumeration of `k` already does)"""
+        conds = self.fa.conditions(nid)
+        own = set()
+        if key is not None and not isinstance(key, ast.Starred):
+            kx = _xkey(self.fa, key, nid)
+            own = {kx, kx + " is None"}
+        for conj in (conds or []):
+            for (t_, p_) in conj:
+                if t_ not in own:
+                    self.filters.append((t_, nid, set()))
+
+    def state_in_filter(self, flt):
+        """-> names of the attributes of self on which a selection condition depends, other than a test whether the key is
+        resident / queued"""
+        (c, at, bound) = flt
+        cm = self.cm
+        if isinstance(c, str):
+            try:
+                e = ast.parse(c, mode="eval").body
+            except SyntaxError:
+                return {"?"} if "self." in c else set()
+        else:
+            e = c
+            if not isinstance(e, ast.Lambda):
+                try:
+                    ex = self.fa.expand(e, at)
+                    e = ex
+                except Exception:
+                    pass
+        out = set()
+
+        def harmless(x, parent):
+            # `k in self.map`, `k in self.queue`, `self.map.get(k) is None`, truth / length of the map
+            f = self_attr(x)
+            if f not in (cm.map, cm.queue):
+                return False
+            if isinstance(parent, ast.Compare) and len(parent.ops) == 1 and isinstance(parent.ops[0], (ast.In, ast.NotIn)) and parent.comparators[0] is x:
+                return True
+            return False
+
+        pm = {ch: p for p in ast.walk(e) for ch in ast.iter_child_nodes(p)}
+        for x in ast.walk(e):
+            f = self_attr(x)
+            if f and not harmless(x, pm.get(x)):
+                # the bare map / queue as a truth value or under len(): "is anything resident at all"
+                p = pm.get(x)
+                if f in (cm.map, cm.queue) and (p is None or isinstance(p, (ast.UnaryOp, ast.BoolOp)) or
+                                                 (isinstance(p, ast.Call) and isinstance(p.func, ast.Name) and p.func.id in ("len", "bool"))):
+                    continue
+                if isinstance(p, ast.Attribute) and isinstance(pm.get(p), ast.Call) and pm.get(p).func is p:
+                    # a method of self: private key builders read no state
+                    if p.attr.startswith("_cache_key"):
+                        continue
+                out.add(f)
+        return out
+
+
+def _comprehension_env(fa: FA, node):
+    """comprehension variables visible at `node`: name -> iterable"""
+    env = {}
+    p = fa.pm.get(node)
+    while p is not None and not isinstance(p, ast.stmt):
+        if isinstance(p, (ast.ListComp, ast.SetComp, ast.GeneratorExp, ast.DictComp)):
+            for g in p.generators:
+                tg = g.target
+                if isinstance(tg, ast.Name):
+                    env.setdefault(tg.id, g.iter)
+                elif isinstance(tg, (ast.Tuple, ast.List)) and tg.elts and isinstance(tg.elts[0], ast.Name):
+                    env.setdefault(tg.elts[0].id, g.iter)
+        p = fa.pm.get(p)
+    return env
+
+
+def check_forget_scope(ck, cm: CacheModel, rule="C06.R5"):
+    m = cm.cls.methods.get("forget_function")
+    ck.need(m is not None, "MemoryCache.forget_function not found")
+    fa = FA(ck, m)
+    # eviction events: (key expression, CFG node, ast for the report)
+    events = []
+    for c in fa.calls():
+        if cm.is_self_call(c, cm.evict) and c.args:
+            events.append((c.args[0], c))
+        elif A.call_attr(c) == "pop" and self_attr(A.call_recv(c), cm.map) and c.args:
+            events.append((c.args[0], c))
+        elif isinstance(c.func, ast.Name) and c.func.id == "map" and len(c.args) == 2 and isinstance(c.args[0], ast.Attribute) \
+                and self_attr(c.args[0]) == cm.evict.name:
+            events.append((ast.Starred(value=c.args[1], ctx=ast.Load()), c))
+    for d in fa.stmts(ast.Delete):
+        for t in d.targets:
+            if isinstance(t, ast.Subscript) and self_attr(t.value, cm.map):
+                events.append((t.slice, d))
+    if not events:
+        return  # reported by the "evicts" obligation
+    sc = ForgetScope(fa, cm)
+    for (k, site) in events:
+        for i in fa.nodes(site):
+            env = _comprehension_env(fa, k) if not isinstance(k, ast.Starred) else {}
+            # conditions of an enclosing comprehension
+            q = site
+            while q is not None and not isinstance(q, ast.stmt):
+                if isinstance(q, (ast.ListComp, ast.SetComp, ast.GeneratorExp, ast.DictComp)):
+                    for g in q.generators:
+                        for cnd in g.ifs:
+                            sc.filters.append((cnd, i, set(env)))
+                q = fa.pm.get(q)
+            sc.trace(k, i, env)
+            sc.path_filters(i, k)
+    aux = sorted(f for f in sc.fields if f not in (cm.map, cm.queue, cm.refs, cm.counter, cm.budget))
+    from_map = [f for f in sc.fields if f in (cm.map, cm.queue)]
+    at = events[0][1]
+    if not sc.fields and sc.other:
+        # a form of enumeration this rule does not follow: decide on what the evicted key depends on
+        deps = set()
+        for (k, site) in events:
+            try:
+                deps |= fa.deps(k.value if isinstance(k, ast.Starred) else k)
+            except AnalysisError:
+                pass
+        flds = {d_.split(".")[1] for d_ in deps if d_.startswith("attr:self.") and len(d_.split(".")) > 1}
+        from_map = [f for f in flds if f in (cm.map, cm.queue)]
+        aux = sorted(f for f in flds if f not in (cm.map, cm.queue, cm.refs, cm.counter, cm.budget) and not f.startswith("_cache_key"))
+        if cm.refs in flds and not from_map and not aux:
+            sc.fields[cm.refs] = None
+    ok_src = bool(from_map) or bool(aux)
+    why = "the keys forget_function evicts are enumerated from the resident map" if from_map else \
+        "the keys forget_function evicts are enumerated from self.%s (held to list every resident key)" % ", self.".join(aux)
+    if not ok_src:
+        src = "the weak-reference table, which lists only results that are still alive elsewhere" if cm.refs in sc.fields else \
+            ("`%s`" % A.short(sc.other[0], 50) if sc.other and sc.other[0] is not None else "something else")
+        why = ("forget_function takes the keys it evicts from %s, not from the resident map: resident entries of the function that are not listed "
+               "there stay resident and served after the function was forgotten, and %s never returns to zero" % (src, cm.counter))
+    ck.ob(rule, fa.key(None, "scope-enumerates-resident-map"), ok_src, why, fa.where(at))
+    # what decides which of the enumerated keys are evicted
+    bad = {}
+    for flt in sc.filters:
+        for f in sc.state_in_filter(flt):
+            if f in aux:
+                continue  # held to be a complete list below
+            bad.setdefault(f, flt)
+    okf = not bad
+    if bad:
+        f0 = sorted(bad)[0]
+        c0 = bad[f0][0]
+        whyf = ("whether forget_function evicts a resident key of the function depends on self.%s (`%s`): entries for which that test fails stay "
+                "resident and served after the function was forgotten, and %s never returns to zero"
+                % (f0, c0 if isinstance(c0, str) else A.short(c0, 60), cm.counter))
+    else:
+        whyf = "which keys are evicted depends on the key and the function reference only"
+    ck.ob(rule, fa.key(None, "scope-not-narrowed-by-state"), okf, whyf, fa.where(at))
+    # an index instead of a scan: the index must list every resident key
+    if ok_src and not from_map:
+        for T in aux:
+            IndexMirror(ck, cm, T).check(rule, scope_roots=sc.root_exprs)
+    elif aux:
+        # the map is enumerated and an index only narrows the selection: same obligations
+        for T in aux:
+            if any(T in sc.state_in_filter(flt) for flt in sc.filters) or T in sc.fields:
+                IndexMirror(ck, cm, T).check(rule, scope_roots=sc.root_exprs)
+
+
 def check(ck):
     from .memo import check_new_memo_tables
     ck.run(check_new_memo_tables, ck, "C06.M1", ('storage_base',))
@@ -1000,6 +1902,7 @@ def check(ck):
     ck.run(check_estimates_bounded_below, ck, cm, "C06.R1")
     ck.run(check_replace_on_put, ck, cm, "C06.R4")
     ck.run(check_forget, ck, cm, "C06.R5")
+    ck.run(check_forget_scope, ck, cm, "C06.R5")
     # the accounts are only honest if each public operation updates map, queue and counter in ONE critical
     # section of the cache lock (shared with C09.R3): a put split over two sections lets another put
     # of the same key in between, and the size is counted twice / the budget exceeded
